@@ -408,8 +408,9 @@ func wgAddBalanced(c *ctx, s *goSite, wg ssa.Value) string {
 			for _, in := range b.Instrs {
 				switch x := in.(type) {
 				case *ssa.Go:
-					if mc, ok := core.Strip(x.Call.Value).(*ssa.MakeClosure); ok {
-						if wgDoneTarget(mc.Fn.(*ssa.Function)) == wg {
+					// a closure or a named function / method started by the go statement
+					if cf := goBody(x); cf != nil {
+						if wgDoneTarget(cf) == wg {
 							perIter++
 							spawnBlocks = append(spawnBlocks, b)
 						}
